@@ -8,6 +8,7 @@ package ircserver
 
 import (
 	"fmt"
+	"strings"
 	"time"
 )
 
@@ -258,6 +259,14 @@ func VerifScenarios() []VScenario {
 		b.line(a, "JOIN #c")
 		b.line(bb, "JOIN #c")
 		b.line(bb, "NICK B")
+	})
+	mk("long-user", func(b *vbuilder) { // a's user name is longer than the 64 bytes kept, byte 64 falls into a multi-byte character
+		b.config(vCfgBase)
+		a := b.create()
+		b.lines(a, "NICK a", "USER "+strings.Repeat("u", 63)+"\u00e9\u00e9\u20ac 0 * :Real a")
+		bb := b.user("b")
+		b.line(a, "JOIN #c")
+		b.line(bb, "JOIN #c")
 	})
 	mk("defaults", func(b *vbuilder) { // default config (no config entry at all): cooloff 500ms, expiration 10m
 		a := b.user("a")
